@@ -1,7 +1,7 @@
 """C16 - parses are isolated and repeatable.
 
-Space : K parser slots (2 quick / 3 thorough), 3 documents (D0; D1 re-using D0's names with other
-        payload; D2 failing half-way), operations new(slot,doc) / new(slot)+load_file(doc) /
+Space : K parser slots (2 quick / 3 thorough), 4 documents (D0; D1 re-using D0's names with other
+        payload; D2 failing half-way inside a nested namespace; D3 declaring nothing), operations new(slot,doc) / new(slot)+load_file(doc) /
         load_file(doc) on the existing instance / process(slot); ALL histories to depth 4 (quick) - un-pruned; thorough: un-pruned to depth 4
         with 3 slots and pruned BFS (state = per slot: document + normal form of the accumulated
         contents + module/class globals) to depth 7.
@@ -33,8 +33,10 @@ DOCS = [
     # fails half-way, INSIDE a (nested) namespace, after some declarations were already parsed
     [['enum', 'Early', ['P']], ['ns', ['A'], [['extern', 'T', 'long'], ['ns', ['Deep'], [
         ['junk', {'<class>': 'component', 'name': D.sn(['Broken'])}]]]]], ['enum', 'Late', ['Q']]],
+    # a well-formed document that declares nothing at all
+    [],
 ]
-EXPECTED = [D.expected(d) for d in DOCS[:2]] + [None]
+EXPECTED = [D.expected(DOCS[0]), D.expected(DOCS[1]), None, D.expected(DOCS[3])]
 
 _TMP = {}
 
@@ -60,7 +62,7 @@ def ops_alphabet(nslots):
         for doc in range(len(DOCS)):
             ops.append(['new', slot, doc])       # fresh instance constructed with the contents
             ops.append(['reload', slot, doc])    # load_file on the EXISTING instance of the slot (fresh one if none)
-        for doc in range(len(DOCS)):
+        for doc in (0, 1, 3):
             # fresh instance without contents + load_file of ONE shared path whose content is rewritten each time
             ops.append(['load', slot, doc])
         ops.append(['process', slot])
@@ -251,7 +253,7 @@ def explore(ctx):
                 f'length 1..{depth}, each replayed on fresh parser objects (un-pruned); plus a BFS pruned on the '
                 'canonical state (per slot: document, normal form of accumulated contents; class/module globals) '
                 f'to depth {7 if ctx.thorough else 5}; non-trivial = history contains a process()')
-    ctx.bounds = {'slots': nslots, 'documents': 3, 'unpruned_depth': depth,
+    ctx.bounds = {'slots': nslots, 'documents': 4, 'unpruned_depth': depth,
                   'pruned_depth': 7 if ctx.thorough else 5}
     ctx.assumptions += ['pruning argument: a DznJsonAst holds only _ast, _file_contents, _ns_trail (immutable '
                         'root) and _verbose; module/class level mutable objects are part of the canonical state, '
